@@ -63,6 +63,29 @@ type VerifStepHook func(side int, blockID int32, step int, token *int32)
 // recovered value and the stack of the panicking goroutine.
 type VerifRecoverHook func(side int, blockID int32, r any, stack []byte)
 
+// VerifBatchHook is called by Writer/Reader.processBlock on the goroutine of the
+// API caller once all the tasks of a batch have been launched (before it waits
+// for them): the tasks of the batch are those with ids firstID+1..firstID+nbTasks.
+type VerifBatchHook func(side int, firstID int32, nbTasks int, token *int32)
+
+var verifBatchHook atomic.Pointer[VerifBatchHook]
+
+// SetVerifBatchHook installs (or removes with nil) the batch hook.
+func SetVerifBatchHook(h VerifBatchHook) {
+	if h == nil {
+		verifBatchHook.Store(nil)
+		return
+	}
+
+	verifBatchHook.Store(&h)
+}
+
+func verifBatch(side int, firstID int32, nbTasks int, token *int32) {
+	if h := verifBatchHook.Load(); h != nil {
+		(*h)(side, firstID, nbTasks, token)
+	}
+}
+
 var verifStepHook atomic.Pointer[VerifStepHook]
 var verifRecoverHook atomic.Pointer[VerifRecoverHook]
 
